@@ -28,6 +28,12 @@ pub fn external_actor(name: &str) -> ActorDef {
     ActorDef { name: name.to_string(), is_co: true, body: Box::new(|| {}), external: true, kernel_of: None }
 }
 
+/// a runtime thread (e.g. the timer thread) whose points in some category are to be gated: it is
+/// never waited for unless it is at a point
+pub fn passive_actor(name: &str) -> ActorDef {
+    ActorDef { name: name.to_string(), is_co: false, body: Box::new(|| {}), external: true, kernel_of: Some(name.to_string()) }
+}
+
 /// the kernel side (subscribe) of coroutine actor `of` as an actor of its own
 pub fn kernel_actor(name: &str, of: &str) -> ActorDef {
     ActorDef { name: name.to_string(), is_co: false, body: Box::new(|| {}), external: true, kernel_of: Some(of.to_string()) }
@@ -232,6 +238,7 @@ pub fn execute(
     let mut prev_pt: Vec<Option<(&'static str, usize)>> = vec![None; names.len()];
     let mut same_cnt: Vec<usize> = vec![0; names.len()];
     let mut spin_rounds = 0usize;
+    let mut idle_loops = 0usize;
     let end;
     loop {
         let st = match ctl.settle(20) {
@@ -260,7 +267,12 @@ pub fn execute(
             .filter(|(i, p)| !(same_cnt[*i] >= 2 && prev_pt[*i] == Some((p.site, p.obj))))
             .cloned()
             .collect();
-        if ready.is_empty() && !ready_all.is_empty() {
+        // a coroutine actor is not offered while the kernel side of its previous yield is still at work
+        // (it may well have been resumed meanwhile: it then waits at its point): one activation at a time
+        let before = ready.len();
+        ready.retain(|(i, _)| !ctl.kernel_busy_of(*i));
+        let held_back = before != ready.len();
+        if ready.is_empty() && !ready_all.is_empty() && !held_back {
             spin_rounds += 1;
             if spin_rounds > 40 {
                 end = End::Budget;
@@ -309,6 +321,7 @@ pub fn execute(
                 }
                 let obs = ready.iter().find(|(a, _)| *a == i).map(|(_, p)| p.a as i64);
                 let expect = if site.as_deref().map_or(false, |s| s.ends_with(".ret")) { obs } else { None };
+                idle_loops = 0;
                 schedule.push(Step::Go { actor: names[i].clone(), site, expect });
                 if let Some((_, p)) = ready.iter().find(|(a, _)| *a == i) {
                     if prev_pt[i] == Some((p.site, p.obj)) {
@@ -387,7 +400,21 @@ pub fn execute(
                     end = End::Stuck(who);
                     break;
                 }
-                // Settled::Ready with nobody at point cannot happen; loop to re-settle
+                // actors are at points but none can be offered right now (held back behind a busy kernel
+                // side, or spinning): give the runtime a moment
+                idle_loops += 1;
+                if idle_loops > 5000 {
+                    if std::env::var("MV_DEBUG").is_ok() {
+                        let g = ctl.lock();
+                        for a in g.actors.iter() {
+                            eprintln!("  IDLE {} st={:?} co={:?} at={:?} k={} host={:?}", a.name, a.st, g.co.get(&a.vid), a.at, a.kactive, a.hosting);
+                        }
+                        eprintln!("  kthread={:?}", g.kthread);
+                    }
+                    end = End::Tool("driver made no progress although actors are at points".into());
+                    break;
+                }
+                std::thread::sleep(Duration::from_micros(200));
             }
         }
     }
@@ -446,6 +473,10 @@ pub fn tick(ctl: &'static Ctrl) {
         ctl.advance_clock(t);
         ctl.timer_quiet(300, before);
         if ctl.lock().fired != before {
+            break;
+        }
+        // stopped at its own point: it has seen the new time, what fires is the schedule's business
+        if ctl.at_points().iter().any(|(_, p)| p.site.starts_with("timer.")) {
             break;
         }
     }
